@@ -3,8 +3,10 @@
 // C32 correspondence harness: "writes land only where the caller is allowed to write".
 //
 // Drives the REAL fiber handlers (app.Test) of arc for every write surface:
-//   POST /api/v1/write/msgpack (columnar / row / batch / top-level array), /write, /api/v2/write,
-//   /api/v1/write/line-protocol, /api/v1/write/tle, /api/v1/import/{csv,parquet,lp,tle}
+//
+//	POST /api/v1/write/msgpack (columnar / row / batch / top-level array), /write, /api/v2/write,
+//	/api/v1/write/line-protocol, /api/v1/write/tle, /api/v1/import/{csv,parquet,lp,tle}
+//
 // with a RECORDING RBAC checker (allow-list: database allowed_db, measurements cpu, mem), a real
 // ArrowBuffer over a recording in-memory storage backend and a real wal.Writer whose replication hook
 // captures what a reader would receive.  After the handler: buffer keys, FlushAll, storage paths; then
@@ -193,6 +195,9 @@ type env struct {
 	rstore   *memBackend
 	rbuf     *ingest.ArrowBuffer
 	recv     *replication.Receiver
+	pstore   *memBackend         // WAL crash-recovery copy
+	pbuf     *ingest.ArrowBuffer // … written by the real recovery callbacks of cmd/arc (verbatim copies)
+	nreplay  int
 	parquet  []byte // a real Parquet file produced by the pipeline (columns time, v, measurement, database; `_`-prefixed columns are dropped by the Parquet writer)
 	local    *storage.LocalBackend
 	seq      uint64
@@ -214,9 +219,10 @@ func newEnv(c *vh.Ctx) *env {
 	}
 	e.tmp = tmp
 	lg := zerolog.Nop()
-	e.wstore, e.rstore = newMem(), newMem()
+	e.wstore, e.rstore, e.pstore = newMem(), newMem(), newMem()
 	e.wbuf = ingest.NewArrowBuffer(icfg(), e.wstore, lg)
 	e.rbuf = ingest.NewArrowBuffer(icfg(), e.rstore, lg)
+	e.pbuf = ingest.NewArrowBuffer(icfg(), e.pstore, lg)
 	w, err := wal.NewWriter(&wal.WriterConfig{WALDir: filepath.Join(tmp, "wal"), SyncMode: wal.SyncModeAsync, Logger: lg})
 	if err != nil {
 		panic(err)
@@ -261,6 +267,7 @@ func newEnv(c *vh.Ctx) *env {
 func (e *env) close() {
 	e.wbuf.Close()
 	e.rbuf.Close()
+	e.pbuf.Close()
 	e.walw.Close()
 	os.RemoveAll(e.tmp)
 }
@@ -270,8 +277,8 @@ const tsMicros = int64(1700000000000000)
 // makeParquet: a real Parquet file, produced by the real pipeline, with routing-like column names.
 func (e *env) makeParquet() {
 	cols := map[string][]interface{}{
-		"time":         {tsMicros},
-		"v":            {int64(1)},
+		"time":        {tsMicros},
+		"v":           {int64(1)},
 		"measurement": {"evil_m2"},
 		"database":    {"evil_db2"},
 	}
@@ -297,16 +304,18 @@ func (e *env) setMode(mode string) {
 // ---------------------------------------------------------------- observation
 
 type obs struct {
-	status   string
-	code     int
-	body     string
-	checks   []check
-	keys     []string // writer buffer keys after the handler
-	paths    []string // writer storage paths (raw)
-	rkeys    []string // reader buffer keys after applying the captured WAL entries
-	nwal     int
-	walRaw   int // enveloped entries
-	applyErr string
+	status    string
+	code      int
+	body      string
+	checks    []check
+	keys      []string // writer buffer keys after the handler
+	paths     []string // writer storage paths (raw)
+	rkeys     []string // reader buffer keys after applying the captured WAL entries
+	pkeys     []string // buffer keys after WAL crash recovery of the same entries (real wal.Recovery + cmd/arc callbacks)
+	replayErr string
+	nwal      int
+	walRaw    int // enveloped entries
+	applyErr  string
 }
 
 func hx(s string) string {
@@ -420,7 +429,48 @@ func (e *env) run(req *http.Request) obs {
 	o.rkeys = e.rbuf.VerifC32BufferKeys()
 	e.rbuf.FlushAll(ctx)
 	e.rstore.take()
+	if len(caps) > 0 {
+		o.pkeys, o.replayErr = e.replay(caps)
+	}
 	return o
+}
+
+// replay: the captured payloads are exactly the bytes the writer's WAL file holds (the hook sees the entry payload,
+// envelope included).  They are appended to a fresh WAL file with the real wal.Writer and recovered with the real
+// wal.Recovery / wal.Reader and the two recovery callbacks of cmd/arc/main.go into a third ArrowBuffer.
+func (e *env) replay(caps [][]byte) (keys []string, errs string) {
+	ctx := context.Background()
+	e.nreplay++
+	dir := filepath.Join(e.tmp, fmt.Sprintf("replay-%d", e.nreplay))
+	defer os.RemoveAll(dir)
+	lg := zerolog.Nop()
+	w, err := wal.NewWriter(&wal.WriterConfig{WALDir: dir, SyncMode: wal.SyncModeAsync, Logger: lg})
+	if err != nil {
+		return nil, "wal-writer: " + err.Error()
+	}
+	for _, p := range caps {
+		if err := w.AppendRaw(p); err != nil {
+			errs = "append: " + err.Error()
+		}
+	}
+	if err := w.Close(); err != nil {
+		errs = "close: " + err.Error()
+	}
+	res := vh.Guard(func() string {
+		_, err := wal.NewRecovery(dir, lg).RecoverWithOptions(ctx, createWALRecoveryCallback(e.pbuf, lg),
+			&wal.RecoveryOptions{ColumnarCallback: createColumnarRecoveryCallback(e.pbuf, lg)})
+		if err != nil {
+			return "recover: " + err.Error()
+		}
+		return ""
+	})
+	if res != "" {
+		errs = res
+	}
+	keys = e.pbuf.VerifC32BufferKeys()
+	e.pbuf.FlushAll(ctx)
+	e.pstore.take()
+	return keys, errs
 }
 
 func (o *obs) line() string {
@@ -456,6 +506,7 @@ type reqInfo struct {
 	named    []string // every database the request names anywhere outside the payload (header, query), plus "default"
 	replay   string
 	emptyM   bool // payload contains a record with measurement ""
+	dupKey   bool // msgpack body repeats a top-level key
 }
 
 func (e *env) monitors(ri reqInfo, o *obs) {
@@ -518,24 +569,57 @@ func (e *env) monitors(ri reqInfo, o *obs) {
 		wdb[s.db] = true
 		wms[s.m] = true
 	}
-	for _, k := range o.rkeys {
-		parts := ingest.VerifC32SplitBufferKey(k)
-		if len(parts) != 2 || o.status != "ok" {
-			continue // (a rejected request that stored rows is reported by the monitors above)
+	class := "payload-field"
+	if ri.dupKey {
+		class = "duplicate-key"
+	}
+	for _, cp := range []struct {
+		what string
+		keys []string
+	}{{"replicated", o.rkeys}, {"replayed", o.pkeys}} {
+		for _, k := range cp.keys {
+			parts := ingest.VerifC32SplitBufferKey(k)
+			if len(parts) != 2 || o.status != "ok" {
+				continue // (a rejected request that stored rows is reported by the monitors above)
+			}
+			if !wdb[parts[0]] {
+				key := "replicated-row-stored-outside-request-database:unenveloped-wal-rows"
+				if cp.what == "replayed" {
+					key = "replayed-row-stored-outside-request-database:wal-recovery"
+				}
+				c.Fail(key, fmt.Sprintf("%s: the writer stored the request under database(s) %v; the %s copy of its WAL entries (%d entries, %d enveloped) lands under %q (buffer key %q)", ri.endpoint, keysOf(wdb), cp.what, o.nwal, o.walRaw, parts[0], k), ri.replay)
+			}
+			if !wms[parts[1]] {
+				key := "replicated-row-redirected-by-payload-field:measurement"
+				if ri.dupKey {
+					key = "replicated-row-stored-under-unchecked-measurement:duplicate-key"
+				}
+				if cp.what == "replayed" {
+					key = "replayed-row-stored-under-unchecked-measurement:" + class
+				}
+				c.Fail(key, fmt.Sprintf("%s: the writer checked and stored measurement(s) %v; the %s copy lands under measurement %q (buffer key %q), for which CheckPermission was never consulted (consulted: %v)", ri.endpoint, keysOf(wms), cp.what, parts[1], k, o.checks), ri.replay+fmt.Sprintf("; %s keys %q", cp.what, cp.keys))
+			}
 		}
-		if !wdb[parts[0]] {
-			c.Fail("replicated-row-stored-outside-request-database:unenveloped-wal-rows",
-				fmt.Sprintf("%s: the writer stored the request under database(s) %v; the WAL entry handed to the replication hook (%d entries, %d enveloped) applied by the reader's real receiver path lands under %q (reader buffer key %q)", ri.endpoint, keysOf(wdb), o.nwal, o.walRaw, parts[0], k), ri.replay)
+		// the copy must also be complete for an accepted request: every measurement the writer stored arrives
+		if o.status == "ok" && cp.what == "replayed" && o.replayErr == "" {
+			got := map[string]bool{}
+			for _, k := range cp.keys {
+				got[k] = true
+			}
+			for _, k := range o.keys {
+				if !got[k] {
+					c.Tag("note:replayed-copy-misses-a-writer-key")
+				}
+			}
 		}
-		if !wms[parts[1]] {
-			c.Fail("replicated-row-redirected-by-payload-field:measurement",
-				fmt.Sprintf("%s: the writer stored measurement(s) %v; the replicated copy lands under measurement %q taken from a payload cell (_measurement / measurement / m) (reader buffer key %q)", ri.endpoint, keysOf(wms), parts[1], k), ri.replay)
-		}
+	}
+	if o.replayErr != "" {
+		c.Tag("note:replay-error")
 	}
 }
 
 func parseEnvelopeDB(p []byte) string { db, _ := wal.ParseEnvelope(p, "default"); return db }
-func nil2ctx() context.Context         { return context.Background() }
+func nil2ctx() context.Context        { return context.Background() }
 
 func keysOf(m map[string]bool) []string {
 	var out []string
@@ -622,6 +706,7 @@ func main() {
 		e.randomCase()
 	}
 	e.repGrid()
+	e.aliasStage()
 	c.Extra["allow_list"] = "database allowed_db, measurements cpu, mem; everything else denied"
 	c.Finish("non-trivial = routing-like payload name present, empty/odd measurement, header/query disagreement, nested batch, failing element, denied or invalid name, non-default RBAC mode, malformed envelope")
 }
